@@ -2885,3 +2885,75 @@ def run_alignidle(prog, ctx=None):
     if n < 1:
         raise Broken("ALIGNIDLE: no alignment step found in the decoders")
     return res
+
+
+def run_deadcopy(prog, ctx=None):
+    """DEADCOPY: a memcpy / memmove / memset whose length the interval analysis pins to zero on every state that reaches it copies
+    nothing - the statement is there to move bytes, so the length is the wrong variable (a parameter that is 0 in this
+    branch where the local count was meant).  Calls in code the analysis does not reach are not judged."""
+    from .ival import Analysis
+    res = Result("DEADCOPY")
+    files = set(ctx.get("files", [])) if ctx else None
+    for f in funcs_of(prog, files):
+        sites = []
+        for b, i, e in f.elements():
+            for n in walk_own(e):
+                if n.get("k") == "call" and callee_name(n) in ("memcpy", "memmove", "memset") and len(n.get("args", [])) == 3:
+                    sites.append((b.id, i, n))
+        if not sites:
+            continue
+        try:
+            an = Analysis(prog, f).run()
+        except Exception as ex:
+            res.notes.append("%s: interval analysis failed (%s)" % (f.qn, ex))
+            continue
+        for k, (bid, i, n) in enumerate(sites):
+            if not an.reachable(bid) or cval(n["args"][2]) is not None:
+                continue
+            v = an.value_at(bid, i, n["args"][2])
+            if v is None:
+                continue
+            dead = v.lo == 0 and v.hi == 0
+            res.ob("%s:%s #%d moves something" % (f.qn, callee_name(n), k), not dead, f, n.get("l") or f.line,
+                   "" if not dead else "the length `%s` of `%s` is 0 in every state that reaches it: nothing is copied" % (norm(show(n["args"][2], f)), norm(show(n, f))[:80]))
+    return res
+
+
+def run_readbase(prog, ctx=None):
+    """READBASE: mpt_message_read(&M, n, buf) copies the next n bytes to buf and moves the cursor M behind them.  What follows
+    works on buf: a later call that is handed `M.base` together with the same length n takes the bytes *behind* what was
+    read for the bytes that were read (and may read past the fragment).  The contiguous branch next to it, where nothing was
+    read, rightly uses `M.base` - the slip is a copy between the two."""
+    res = Result("READBASE")
+    files = set(ctx.get("files", [])) if ctx else None
+    for f in funcs_of(prog, files):
+        reads = []
+        for b, i, e in f.elements():
+            if e.get("k") == "call" and callee_name(e) == "mpt_message_read" and len(e.get("args", [])) == 3 and cval(e["args"][2]) != 0:
+                a0 = strip(e["args"][0], all_casts=True)
+                if a0.get("k") == "un" and a0.get("op") == "&":
+                    m = strip(a0["e"], lvalue_to_rvalue=False)
+                    if m.get("k") == "ref" and "id" in m["d"]:
+                        reads.append((b.id, i, e, m["d"]["id"], m["d"].get("n"), norm(show(strip(e["args"][1], all_casts=True), f))))
+        for k, (bid, i, e, mid, mname, ntext) in enumerate(reads):
+            later = set()
+            for s0 in f.blocks[bid].succ:
+                if s0 is not None:
+                    later |= set(f.reachable_from(s0))
+            bad = None
+            for b2, i2, e2 in f.elements():
+                if not (b2.id in later or (b2.id == bid and i2 > i)):
+                    continue
+                if e2.get("k") != "call" or (callee_name(e2) or "").startswith("mpt_message_"):
+                    continue
+                args = e2.get("args", [])
+                has_base = any(strip(a, all_casts=True).get("k") == "mem" and strip(a, all_casts=True).get("f") == "base"
+                               and strip(strip(a, all_casts=True)["b"], all_casts=True).get("k") == "ref"
+                               and strip(strip(a, all_casts=True)["b"], all_casts=True)["d"].get("id") == mid for a in args)
+                same_n = any(norm(show(strip(a, all_casts=True), f)) == ntext for a in args)
+                if has_base and same_n and bad is None:
+                    bad = e2
+            res.ob("%s:read %d of %s" % (f.qn, k, mname), bad is None, f, (bad.get("l") if bad else e.get("l")) or f.line,
+                   "" if bad is None else "`%s` is handed %s.base with the length %s that mpt_message_read() (line %s) has already consumed into its buffer: the cursor stands behind those bytes" % (
+                       norm(show(bad, f))[:70], mname, ntext, e.get("l")))
+    return res
